@@ -265,6 +265,400 @@ def interp_functions(repo, outdir):
     write(os.path.join(outdir, "InterpGen.lean"), "\n".join(out))
     return len(jobs)
 
+# ---------------------------------------------------------------------------------------------
+# Statement fragment (rsexpr.StmtParser): `CoordinatePosition` from geo/src/algorithm/coordinate_position.rs
+
+CPOS = "geo/src/algorithm/coordinate_position.rs"
+CP_PATHS = dict(ORI_PATHS)
+CP_PATHS.update({"Ordering::Less": "Ordering.lt", "Ordering::Equal": "Ordering.eq", "Ordering::Greater": "Ordering.gt"})
+CP_PARAMS = r"\(\s*&self,\s*coord: &Coord<T>,\s*is_inside: &mut bool,\s*%s: &mut usize,?\s*\)\s*\{"
+
+def cp_header(ty, bc="boundary_count"):
+    return r"impl<T> CoordinatePosition for %s<T>.*?fn calculate_coordinate_position" % ty + CP_PARAMS % bc
+
+def cp_opts(bc="boundary_count", **kw):
+    o = {"muts": [("is_inside", "Bool"), (bc, "Nat")], "ret_ctor": "PosAcc.mk", "ret_type": "PosAcc",
+         # release build: debug assertions are compiled out (the harness is built with --release)
+         "debug_assert": "skip", "accessors": {}, "mut_types": {}}
+    o.update(kw)
+    return o
+
+def cp_call(fn):
+    """`x.calculate_coordinate_position(coord, a, b)` resolved (by the receiver's static type, chosen per job) to `fn`"""
+    return {"calculate_coordinate_position": {"fn": fn, "ctor": "PosAcc.mk", "proj": ["inside", "bcount"]}}
+
+# semantic choices shared by the jobs below (each one explicit here):
+#   Vec<_> = List, .len() = List.length, .is_empty() = List.isEmpty, .first()/.last() = head?/getLast?, .iter() = the list
+#   Option::unwrap = Gen.unwrap (total; panic not modelled), usize / i32 counters = Nat / Int without overflow
+VEC_ACC = {"len": "{}.length", "is_empty": "{}.isEmpty", "first": "{}.head?", "last": "{}.getLast?", "iter": "{}",
+           "unwrap": "(Gen.unwrap {})"}
+
+def coordpos_jobs(repo):
+    import rsexpr
+    tri = strip_comments(open(os.path.join(repo, "geo-types/src/geometry/triangle.rs")).read())
+    to_lines = rsexpr.array_literal(tri, r"pub fn to_lines\(&self\) -> \[Line<T>; 3\] \{", {}, {"Line::new": "Prod.mk"})
+    acc = "(acc : PosAcc)"
+    # (header, Lean name, parameters, paths, funcs, subst, resub, opts)
+    return [
+        (r"pub fn coord_pos_relative_to_ring<T>\(coord: Coord<T>, linestring: &LineString<T>\) -> CoordPos\s+where\s+T: GeoNum,\s*\{",
+         "coordPosRelativeToRing", "(coord : Pt) (linestring : List Pt)", "Pos",
+         {"T::Ker::orient2d": "Geo.orient", "value_in_between": "Gen.valueInBetween"},
+         [("linestring.1", "linestring"), ("line.start", "line.1"), ("line.end", "line.2")], [],
+         {"ret_type": "Pos", "debug_assert": "skip", "mut_types": {"winding_number": "Int"},
+          # `LineString::lines()` = consecutive coordinate pairs (`windows(2)`), modelled by `Geo.segs`
+          "accessors": dict(VEC_ACC, lines="(Geo.segs {})")}),
+        (cp_header("Coord", "_boundary_count"), "coordCalc", "(self_ coord : Pt) " + acc, "PosAcc", {}, [("self", "self_")], [],
+         cp_opts("_boundary_count")),
+        (cp_header("Point", "_boundary_count"), "pointCalc", "(self_ coord : Pt) " + acc, "PosAcc", {}, [("self.1", "self_")], [],
+         cp_opts("_boundary_count")),
+        (cp_header("Line"), "lineCalc", "(s e coord : Pt) " + acc, "PosAcc", {".intersects": "Gen.lineCoord"},
+         [("self.start", "s"), ("self.end", "e"), ("self", "s e")], [], cp_opts(state_calls=cp_call("coordCalc"))),
+        (cp_header("LineString"), "lineStringCalc", "(cs : List Pt) (coord : Pt) " + acc, "PosAcc",
+         {"Line::new": "{0} {1}",
+          ".intersects": [(r"^\(Gen\.unwrap \(Geo\.getBoundingRect self\)\)$", "(Gen.rectCoord {0}.1 {0}.2 {1})"),
+                          (r"^self$", "(Geo.lineStringCoord {0} {1})")]},
+         [("self.1", "cs"), ("self", "cs")], [],
+         cp_opts(state_calls=cp_call("lineCalc"),
+                 accessors=dict(VEC_ACC, bounding_rect="(Geo.getBoundingRect {})", is_closed="(Geo.isClosedLS {})"))),
+        (cp_header("Triangle"), "triangleCalc", "(a b c coord : Pt) " + acc, "PosAcc",
+         {"T::Ker::orient2d": "Geo.orient", "point_in_rect": "Gen.pointInRect"},
+         [("self.1", "a"), ("self.2", "b"), ("self.3", "c"), ("l.start", "l.1"), ("l.end", "l.2")], [],
+         cp_opts(arrays={"self.to_lines": to_lines}, accessors={"to_lines": "{}.to_lines"})),
+        (cp_header("Rect"), "rectCalc", "(mn mx coord : Pt) " + acc, "PosAcc",
+         {".partial_cmp": "(Gen.partialCmp? {0} {1})"}, [("self.min", "mn"), ("self.max", "mx")], [],
+         cp_opts(accessors={"min": "{}.min", "max": "{}.max", "unwrap": "(Gen.unwrap {})"})),
+        (cp_header("MultiPoint", "_boundary_count"), "multiPointCalc", "(ps : List Pt) (coord : Pt) " + acc, "PosAcc",
+         {".any": "({0}.any {1})"}, [("self.1", "ps"), ("p.1", "p")], [], cp_opts("_boundary_count", accessors=VEC_ACC)),
+        (cp_header("Polygon"), "polygonCalc", "(poly : Poly) (coord : Pt) " + acc, "PosAcc",
+         {"coord_pos_relative_to_ring": "coordPosRelativeToRing"}, [("self", "poly")], [],
+         # `Polygon::is_empty` (HasDimensions) = `self.exterior().0.is_empty()`
+         cp_opts(accessors={"is_empty": "{}.ext.isEmpty", "exterior": "{}.ext", "interiors": "{}.ints"})),
+        (cp_header("MultiLineString"), "multiLineStringCalc", "(ls : List (List Pt)) (coord : Pt) " + acc, "PosAcc", {},
+         [("self.1", "ls")], [], cp_opts(state_calls=cp_call("lineStringCalc"))),
+        (cp_header("MultiPolygon"), "multiPolygonCalc", "(ps : List Poly) (coord : Pt) " + acc, "PosAcc", {},
+         [("self.1", "ps")], [], cp_opts(state_calls=cp_call("polygonCalc"), mut_types={"member_boundary_count": "Nat"})),
+        # `for geometry in self`: the members, each through the `Geometry` enum — the recursive call is the parameter `calcFn`
+        (cp_header("GeometryCollection"), "geometryCollectionCalc", "(calcFn : Geom → Pt → PosAcc → PosAcc) (gs : List Geom) (coord : Pt) " + acc,
+         "PosAcc", {}, [("self", "gs")], [], cp_opts(state_calls=cp_call("calcFn"))),
+        # the provided trait method; `self.calculate_coordinate_position` is the parameter `calcFn`
+        (r"fn coordinate_position\(&self, coord: &Coord<Self::Scalar>\) -> CoordPos \{",
+         "coordinatePosition", "(calcFn : Pt → PosAcc → PosAcc) (coord : Pt)", "Pos", {}, [], [(r"\(calcFn self coord", "(calcFn coord")],
+         {"ret_type": "Pos", "mut_types": {"boundary_count": "Nat"}, "state_calls": cp_call("calcFn")}),
+    ]
+
+def coordpos_functions(repo, outdir):
+    """Gen/CoordPosGen.lean: the `CoordinatePosition` impls and `coord_pos_relative_to_ring`, whole bodies."""
+    import rsexpr
+    src = strip_comments(open(os.path.join(repo, CPOS)).read())
+    out = ["/- generated by translator/rs2lean.py (rsexpr, statement fragment) from %s; do not edit -/" % CPOS,
+           "import GeoModel.Locate", "import GeoModel.TRANPrelude", "import GeoModel.Gen.Kernel", "",
+           "namespace Geo.Gen", "open Geo", "set_option linter.unusedVariables false", ""]
+    try:
+        jobs = coordpos_jobs(repo)
+    except rsexpr.TranslateError as e:
+        die("Triangle::to_lines: %s" % e)
+    for (hdr, name, params, ret, funcs, subst, resub, opts) in jobs:
+        try:
+            term = rsexpr.translate_fn(src, hdr, CP_PATHS, funcs, subst, resub=resub, opts=opts)
+        except rsexpr.TranslateError as e:
+            die("%s (%s): %s" % (name, CPOS, e))
+        pro = ""
+        if opts.get("ret_ctor"):
+            pro = "".join("  let %s := acc.%s\n" % (m[0], f) for m, f in zip(opts["muts"], ["inside", "bcount"]))
+        out.append("/-- `%s` — %s -/" % (name, CPOS))
+        out.append("def %s %s : %s :=\n%s%s\n" % (name, params, ret, pro, term))
+    out += ["end Geo.Gen", ""]
+    write(os.path.join(outdir, "CoordPosGen.lean"), "\n".join(out))
+    return len(jobs)
+
+# ---------------------------------------------------------------------------------------------
+# `HasDimensions` from geo/src/algorithm/dimensions.rs (and `LineString::is_closed` from geo-types)
+
+DIMS = "geo/src/algorithm/dimensions.rs"
+DIM_PATHS = {"Dimensions::Empty": "Dim.empty", "Dimensions::ZeroDimensional": "Dim.zero", "Dimensions::OneDimensional": "Dim.one",
+             "Dimensions::TwoDimensional": "Dim.two", "Collinear": "Ori.col"}
+
+def dim_hdr(bounds, ty, fn, ret):
+    return r"impl<C: %s> HasDimensions for %s<C> \{.*?fn %s\(&self\) -> %s \{" % (bounds, ty, fn, ret)
+
+def dims_jobs():
+    D = {"ret_type": "Dim"}
+    B = {"ret_type": "Bool"}
+    # `unreachable!()` arms (a dimension that the type cannot have): the job picks `Empty`, as the hand-written model does;
+    # the arm is dead code (dims of these types is never the excluded value), a panic there would be seen by the harness
+    U = {"unreachable": "Dim.empty"}
+    ls_acc = dict(VEC_ACC, is_closed="(lineStringIsClosed {})", dimensions="(lineStringDimensions {})")
+    return [
+        # (file, header, Lean name, params, ret, funcs, subst, resub, opts)
+        ("geo-types/src/geometry/line_string.rs", r"pub fn is_closed\(&self\) -> bool \{", "lineStringIsClosed", "(cs : List Pt)", "Bool",
+         {}, [("self.1", "cs")], [], dict(B, accessors=VEC_ACC)),
+        (DIMS, dim_hdr("CoordNum", "Line", "dimensions", "Dimensions"), "lineDimensions", "(s e : Pt)", "Dim", {},
+         [("self.start", "s"), ("self.end", "e")], [], D),
+        (DIMS, dim_hdr("CoordNum", "Line", "boundary_dimensions", "Dimensions"), "lineBoundaryDimensions", "(s e : Pt)", "Dim", {},
+         [("self.start", "s"), ("self.end", "e")], [], D),
+        (DIMS, dim_hdr("CoordNum", "LineString", "is_empty", "bool"), "lineStringIsEmpty", "(cs : List Pt)", "Bool", {},
+         [("self.1", "cs")], [], dict(B, accessors=VEC_ACC)),
+        (DIMS, dim_hdr("CoordNum", "LineString", "dimensions", "Dimensions"), "lineStringDimensions", "(cs : List Pt)", "Dim",
+         {".any": "({0}.any {1})"}, [("self.1", "cs")], [], dict(D, accessors=VEC_ACC)),
+        (DIMS, dim_hdr("CoordNum", "LineString", "boundary_dimensions", "Dimensions"), "lineStringBoundaryDimensions", "(cs : List Pt)", "Dim",
+         {}, [("self", "cs")], [], dict(D, accessors=ls_acc, **U)),
+        (DIMS, dim_hdr("CoordNum", "Polygon", "is_empty", "bool"), "polygonIsEmpty", "(poly : Poly)", "Bool", {},
+         [("self", "poly")], [], dict(B, accessors={"exterior": "{}.ext", "is_empty": "(lineStringIsEmpty {})"})),
+        # `exterior_coords_iter()` = the coordinates of the exterior ring in order (geo/src/algorithm/coords_iter.rs)
+        (DIMS, dim_hdr("CoordNum", "Polygon", "dimensions", "Dimensions"), "polygonDimensions", "(poly : Poly)", "Dim", {},
+         [("self", "poly")], [], dict(D, accessors={"exterior_coords_iter": "{}.ext"}, mut_types={"coords": "List Pt"})),
+        (DIMS, dim_hdr("CoordNum", "Polygon", "boundary_dimensions", "Dimensions"), "polygonBoundaryDimensions", "(poly : Poly)", "Dim", {},
+         [("self", "poly")], [], dict(D, accessors={"dimensions": "(polygonDimensions {})"})),
+        (DIMS, dim_hdr("CoordNum", "MultiLineString", "dimensions", "Dimensions"), "multiLineStringDimensions", "(ls : List (List Pt))", "Dim", {},
+         [("self.1", "ls")], [], dict(D, accessors={"dimensions": "(lineStringDimensions {})"}, mut_types={"max": "Dim"}, **U)),
+        (DIMS, dim_hdr("CoordNum", "MultiPolygon", "dimensions", "Dimensions"), "multiPolygonDimensions", "(ps : List Poly)", "Dim",
+         # `Ord::max` on the derive(Ord) enum = the later declared variant
+         {".max": "(Dim.max {0} {1})"}, [("self", "ps")], [],
+         dict(D, accessors={"dimensions": "(polygonDimensions {})"}, mut_types={"max": "Dim"})),
+        (DIMS, dim_hdr("CoordNum", "MultiPolygon", "boundary_dimensions", "Dimensions"), "multiPolygonBoundaryDimensions", "(ps : List Poly)", "Dim",
+         {}, [("self", "ps")], [], dict(D, accessors={"dimensions": "(multiPolygonDimensions {})"})),
+        (DIMS, dim_hdr("CoordNum", "MultiPoint", "is_empty", "bool"), "multiPointIsEmpty", "(ps : List Pt)", "Bool", {},
+         [("self.1", "ps")], [], dict(B, accessors=VEC_ACC)),
+        (DIMS, dim_hdr("CoordNum", "MultiPoint", "dimensions", "Dimensions"), "multiPointDimensions", "(ps : List Pt)", "Dim", {},
+         [("self.1", "ps")], [], dict(D, accessors=VEC_ACC)),
+        # `self.iter().all(LineString::is_empty)`: a method path used as a function
+        (DIMS, dim_hdr("CoordNum", "MultiLineString", "is_empty", "bool"), "multiLineStringIsEmpty", "(ls : List (List Pt))", "Bool",
+         {".all": "({0}.all {1})"}, [("self", "ls")], [], dict(B, accessors={"iter": "{}"}, paths={"LineString::is_empty": "lineStringIsEmpty"})),
+        (DIMS, dim_hdr("CoordNum", "MultiPolygon", "is_empty", "bool"), "multiPolygonIsEmpty", "(ps : List Poly)", "Bool",
+         {".all": "({0}.all {1})"}, [("self", "ps")], [], dict(B, accessors={"iter": "{}"}, paths={"Polygon::is_empty": "polygonIsEmpty"})),
+        # `for geom in self`: the members through the `Geometry` enum — `geom.dimensions()` is the parameter `dimsFn`
+        (DIMS, dim_hdr("GeoNum", "GeometryCollection", "dimensions", "Dimensions"), "geometryCollectionDimensions",
+         "(dimsFn : Geom → Dim) (gs : List Geom)", "Dim", {".max": "(Dim.max {0} {1})"}, [("self", "gs")], [],
+         dict(D, accessors={"dimensions": "(dimsFn {})"}, mut_types={"max": "Dim"})),
+        (DIMS, dim_hdr("GeoNum", "GeometryCollection", "boundary_dimensions", "Dimensions"), "geometryCollectionBoundaryDimensions",
+         "(bdimsFn : Geom → Dim) (gs : List Geom)", "Dim", {".max": "(Dim.max {0} {1})"}, [("self", "gs")], [],
+         dict(D, accessors={"boundary_dimensions": "(bdimsFn {})"}, mut_types={"max": "Dim"})),
+        (DIMS, dim_hdr("CoordNum", "Rect", "dimensions", "Dimensions"), "rectDimensions", "(mn mx : Pt)", "Dim", {},
+         [("self.min", "mn"), ("self.max", "mx")], [], dict(D, accessors={"min": "{}.min", "max": "{}.max"})),
+        (DIMS, dim_hdr("CoordNum", "Rect", "boundary_dimensions", "Dimensions"), "rectBoundaryDimensions", "(mn mx : Pt)", "Dim", {},
+         [("self", "mn mx")], [], dict(D, accessors={"dimensions": "(rectDimensions {})"}, **U)),
+        (DIMS, dim_hdr("GeoNum", "Triangle", "dimensions", "Dimensions"), "triangleDimensions", "(a b c : Pt)", "Dim",
+         {"C::Ker::orient2d": "Geo.orient"}, [("self.1", "a"), ("self.2", "b"), ("self.3", "c")], [], D),
+        (DIMS, dim_hdr("GeoNum", "Triangle", "boundary_dimensions", "Dimensions"), "triangleBoundaryDimensions", "(a b c : Pt)", "Dim", {},
+         [("self", "a b c")], [], dict(D, accessors={"dimensions": "(triangleDimensions {})"}, **U)),
+    ]
+
+def dims_functions(repo, outdir):
+    """Gen/DimsGen.lean: `HasDimensions` impl bodies (is_empty / dimensions / boundary_dimensions)."""
+    import rsexpr
+    out = ["/- generated by translator/rs2lean.py (rsexpr, statement fragment) from %s; do not edit -/" % DIMS,
+           "import GeoModel.Locate", "import GeoModel.TRANPrelude", "",
+           "namespace Geo.Gen", "open Geo", "set_option linter.unusedVariables false", ""]
+    cache = {}
+    jobs = dims_jobs()
+    for (rel, hdr, name, params, ret, funcs, subst, resub, opts) in jobs:
+        if rel not in cache:
+            cache[rel] = strip_comments(open(os.path.join(repo, rel)).read())
+        try:
+            term = rsexpr.translate_fn(cache[rel], hdr, dict(DIM_PATHS, **opts.get("paths", {})), funcs, subst, resub=resub, opts=opts)
+        except rsexpr.TranslateError as e:
+            die("%s (%s): %s" % (name, rel, e))
+        out.append("/-- `%s` — %s -/" % (name, rel))
+        out.append("def %s %s : %s :=\n%s\n" % (name, params, ret, term))
+    out += ["end Geo.Gen", ""]
+    write(os.path.join(outdir, "DimsGen.lean"), "\n".join(out))
+    return len(jobs)
+
+# ---------------------------------------------------------------------------------------------
+# area.rs, contains/{line,rect}.rs, intersects/triangle.rs
+
+AREA = "geo/src/algorithm/area.rs"
+NUM_PATHS = {"T::zero": "0", "T::one": "1"}
+# `Line::map_coords(f)` = `Line::new(f(start), f(end))` (geo/src/algorithm/map_coords.rs), a Line being the pair of its end points
+LINE_MAP = "({1} {0}.1, {1} {0}.2)"
+
+def misc_jobs(repo):
+    import rsexpr
+    tri = strip_comments(open(os.path.join(repo, "geo-types/src/geometry/triangle.rs")).read())
+    to_lines = rsexpr.array_literal(tri, r"pub fn to_lines\(&self\) -> \[Line<T>; 3\] \{", {}, {"Line::new": "Prod.mk"})
+    area_hdr = lambda ty, fn: r"impl<T> Area<T> for %s<T>\s+where\s+T: \w+,\s*\{.*?fn %s\(&self\) -> T \{" % (ty, fn)
+    R = {"ret_type": "Rat"}
+    B = {"ret_type": "Bool"}
+    fold = {".fold": "(List.foldl {2} {1} {0})"}
+    return [
+        # (file, header, Lean name, params, ret, paths, funcs, subst, resub, opts)
+        (AREA, r"pub\(crate\) fn twice_signed_ring_area<T>\(linestring: &LineString<T>\) -> T\s+where\s+T: CoordNum,\s*\{",
+         "twiceSignedRingArea", "(linestring : List Pt)", "Rat", NUM_PATHS, {".map_coords": LINE_MAP},
+         [("linestring.1", "linestring")], [],
+         dict(R, mut_types={"tmp": "Rat"},
+              accessors=dict(VEC_ACC, lines="(Geo.segs {})", determinant="(Gen.lineDeterminant {0}.1 {0}.2)"))),
+        (AREA, r"pub\(crate\) fn get_linestring_area<T>\(linestring: &LineString<T>\) -> T\s+where\s+T: CoordFloat,\s*\{",
+         "getLinestringArea", "(linestring : List Pt)", "Rat", NUM_PATHS, {"twice_signed_ring_area": "twiceSignedRingArea"}, [], [], R),
+        (AREA, area_hdr("Polygon", "signed_area"), "polygonSignedArea", "(poly : Poly)", "Rat", NUM_PATHS,
+         dict(fold, get_linestring_area="getLinestringArea"), [("self", "poly")], [],
+         # `abs` on numbers = `Geo.rabs`
+         dict(R, accessors={"exterior": "{}.ext", "interiors": "{}.ints", "iter": "{}", "abs": "(Geo.rabs {})"})),
+        (AREA, area_hdr("Polygon", "unsigned_area"), "polygonUnsignedArea", "(poly : Poly)", "Rat", NUM_PATHS, {}, [("self", "poly")], [],
+         dict(R, accessors={"signed_area": "(polygonSignedArea {})", "abs": "(Geo.rabs {})"})),
+        (AREA, area_hdr("MultiPolygon", "signed_area"), "multiPolygonSignedArea", "(ps : List Poly)", "Rat", NUM_PATHS, fold,
+         [("self.1", "ps")], [], dict(R, accessors={"iter": "{}", "signed_area": "(polygonSignedArea {})"})),
+        (AREA, area_hdr("MultiPolygon", "unsigned_area"), "multiPolygonUnsignedArea", "(ps : List Poly)", "Rat", NUM_PATHS, fold,
+         [("self.1", "ps")], [], dict(R, accessors={"iter": "{}", "signed_area": "(polygonSignedArea {})", "abs": "(Geo.rabs {})"})),
+        (AREA, area_hdr("Triangle", "signed_area"), "triangleSignedArea", "(a b c : Pt)", "Rat", NUM_PATHS, {},
+         [("self.1", "a"), ("self.2", "b"), ("self.3", "c")], [], R),
+        ("geo/src/algorithm/contains/line.rs", r"impl<T> Contains<Coord<T>> for Line<T>.*?fn contains\(&self, coord: &Coord<T>\) -> bool \{",
+         "lineContainsCoord", "(s e coord : Pt)", "Bool", {}, {".intersects": "Gen.lineCoord"},
+         [("self.start", "s"), ("self.end", "e"), ("self", "s e")], [], B),
+        ("geo/src/algorithm/contains/line.rs", r"impl<T> Contains<Line<T>> for Line<T>.*?fn contains\(&self, line: &Line<T>\) -> bool \{",
+         "lineContainsLine", "(s e ls le : Pt)", "Bool", {}, {".intersects": "Gen.lineCoord", ".contains": "lineContainsCoord"},
+         [("line.start", "ls"), ("line.end", "le"), ("self", "s e")], [], B),
+        ("geo/src/algorithm/contains/rect.rs", r"impl<T> Contains<Polygon<T>> for Rect<T>.*?fn contains\(&self, rhs: &Polygon<T>\) -> bool \{",
+         "rectContainsPolygon", "(mn mx : Pt) (rhs : Poly)", "Bool", {},
+         {".intersects": "Gen.rectCoord", ".contains": "Gen.rectContainsCoord"}, [("self", "mn mx")], [],
+         # `is_zero()` = comparison with 0; `exterior_coords_iter()` = the exterior coordinates in order
+         dict(B, mut_types={"points_inside": "Nat"},
+              accessors={"is_empty": "(polygonIsEmpty {})", "exterior_coords_iter": "{}.ext", "signed_area": "(polygonSignedArea {})",
+                         "is_zero": "({} == 0)"})),
+        ("geo/src/algorithm/intersects/triangle.rs", r"impl<T> Intersects<Coord<T>> for Triangle<T>.*?fn intersects\(&self, rhs: &Coord<T>\) -> bool \{",
+         "triangleCoord", "(a b c rhs : Pt)", "Bool", ORI_PATHS, {"T::Ker::orient2d": "Geo.orient"},
+         [("self.1", "a"), ("self.2", "b"), ("self.3", "c"), ("l.start", "l.1"), ("l.end", "l.2")], [],
+         # `[Orientation; 3]::sort()` by the derive(Ord) order = `Geo.sort3` (proved to sort in Props/C02)
+         dict(B, arrays={"self.to_lines": to_lines}, accessors={"to_lines": "{}.to_lines"}, array_sort={3: "Geo.sort3"})),
+    ]
+
+def misc_functions(repo, outdir):
+    """Gen/AreaGen.lean: area.rs, Line/Rect `contains` bodies, `Triangle: Intersects<Coord>`."""
+    import rsexpr
+    out = ["/- generated by translator/rs2lean.py (rsexpr, statement fragment); do not edit -/",
+           "import GeoModel.Area", "import GeoModel.Segment", "import GeoModel.TRANPrelude", "import GeoModel.Gen.Kernel", "import GeoModel.Gen.DimsGen", "",
+           "namespace Geo.Gen", "open Geo", "set_option linter.unusedVariables false", ""]
+    cache = {}
+    try:
+        jobs = misc_jobs(repo)
+    except rsexpr.TranslateError as e:
+        die("Triangle::to_lines: %s" % e)
+    for (rel, hdr, name, params, ret, paths, funcs, subst, resub, opts) in jobs:
+        if rel not in cache:
+            cache[rel] = strip_comments(open(os.path.join(repo, rel)).read())
+        try:
+            term = rsexpr.translate_fn(cache[rel], hdr, paths, funcs, subst, resub=resub, opts=opts)
+        except rsexpr.TranslateError as e:
+            die("%s (%s): %s" % (name, rel, e))
+        out.append("/-- `%s` — %s -/" % (name, rel))
+        out.append("def %s %s : %s :=\n%s\n" % (name, params, ret, term))
+    out += ["end Geo.Gen", ""]
+    write(os.path.join(outdir, "AreaGen.lean"), "\n".join(out))
+    return len(jobs)
+
+# ---------------------------------------------------------------------------------------------
+# the state-machine core of geo-types `Polygon` / `LineString::close` (C18)
+
+POLY = "geo-types/src/geometry/polygon.rs"
+LSRS = "geo-types/src/geometry/line_string.rs"
+
+def polysm_jobs():
+    RING, RINGS = "List α", "List (List α)"
+    st = {"muts": [("self_exterior", RING), ("self_interiors", RINGS)], "ret_ctor": "SM.State.mk",
+          "places": {"self.exterior": "self_exterior", "self.interiors": "self_interiors"},
+          "mut_methods": {"close": "lineStringClose"}}
+    pro = "  let self_exterior := self_.ext\n  let self_interiors := self_.ints\n"
+    # a closure parameter `F: FnOnce(&mut LineString<T>) [-> Result<(), E>]` is a function from the old ring to
+    # (new ring, result is Ok) — `SM.RingFn`; `F: FnOnce(&mut [LineString<T>])` cannot change the number of rings:
+    # its result is fitted back to the old length (`SM.fitLen`, what the borrow checker enforces) — `SM.RingsFn`
+    ringfn = {"f": {"state": "{r}.1", "value": "{r}.2"}}
+    ringsfn = {"f": {"state": "(SM.fitLen {x} {r}.1)", "value": "{r}.2"}}
+    return [
+        # (file, header, Lean name, params, ret, funcs, subst, prologue, opts)
+        (LSRS, r"pub fn close\(&mut self\) \{", "lineStringClose", "(self_ : List α)", RING, {}, [("self", "self_0")], "  let self_0 := self_\n",
+         {"muts": [("self_0", RING)], "ret_ctor": "id", "ret_type": RING, "places": {"self.0": "self_0"}, "debug_assert": "skip",
+          "accessors": {"is_closed": "(SM.isClosed {})", "is_empty": "{}.isEmpty"}}),
+        (POLY, r"pub fn new\(mut exterior: LineString<T>, mut interiors: Vec<LineString<T>>\) -> Self \{", "polygonNew",
+         "(exterior : List α) (interiors : List (List α))", "SM.State α", {}, [], "",
+         {"muts": [("exterior", RING), ("interiors", RINGS)], "ret_type": "SM.State α", "mut_methods": {"close": "lineStringClose"}}),
+        (POLY, r"pub fn exterior_mut<F>\(&mut self, f: F\)\s+where\s+F: FnOnce\(&mut LineString<T>\),\s*\{", "polygonExteriorMut",
+         "(self_ : SM.State α) (f : SM.RingFn α)", "SM.State α", {}, [], pro, dict(st, ret_type="SM.State α", fn_params=ringfn)),
+        (POLY, r"pub fn try_exterior_mut<F, E>\(&mut self, f: F\) -> Result<\(\), E>\s+where\s+F: FnOnce\(&mut LineString<T>\) -> Result<\(\), E>,\s*\{",
+         "polygonTryExteriorMut", "(self_ : SM.State α) (f : SM.RingFn α)", "SM.State α × Bool", {}, [], pro,
+         dict(st, ret_type="SM.State α × Bool", ret_both=True, fn_params=ringfn)),
+        (POLY, r"pub fn interiors_mut<F>\(&mut self, f: F\)\s+where\s+F: FnOnce\(&mut \[LineString<T>\]\),\s*\{", "polygonInteriorsMut",
+         "(self_ : SM.State α) (f : SM.RingsFn α)", "SM.State α", {}, [], pro, dict(st, ret_type="SM.State α", fn_params=ringsfn)),
+        (POLY, r"pub fn try_interiors_mut<F, E>\(&mut self, f: F\) -> Result<\(\), E>\s+where\s+F: FnOnce\(&mut \[LineString<T>\]\) -> Result<\(\), E>,\s*\{",
+         "polygonTryInteriorsMut", "(self_ : SM.State α) (f : SM.RingsFn α)", "SM.State α × Bool", {}, [], pro,
+         dict(st, ret_type="SM.State α × Bool", ret_both=True, fn_params=ringsfn)),
+        (POLY, r"pub fn interiors_push\(&mut self, new_interior: impl Into<LineString<T>>\) \{", "polygonInteriorsPush",
+         "(self_ : SM.State α) (new_interior : List α)", "SM.State α", {}, [], pro,
+         # `.into()` on something that already is a LineString: the identity
+         dict(st, ret_type="SM.State α", accessors={"into": "{}"}, mut_types={"new_interior": RING})),
+    ]
+
+def polysm_functions(repo, outdir):
+    """Gen/PolygonSMGen.lean: `LineString::close`, `Polygon::{new, exterior_mut, try_exterior_mut, interiors_mut, try_interiors_mut,
+    interiors_push}` as functions on the state `SM.State α`."""
+    import rsexpr
+    out = ["/- generated by translator/rs2lean.py (rsexpr, statement fragment) from %s and %s; do not edit -/" % (POLY, LSRS),
+           "import GeoModel.PolygonSM", "import GeoModel.TRANPrelude", "",
+           "namespace Geo.Gen", "open Geo", "set_option linter.unusedVariables false", "",
+           "variable {α : Type} [DecidableEq α] [Inhabited α]", ""]
+    cache = {}
+    jobs = polysm_jobs()
+    for (rel, hdr, name, params, ret, funcs, subst, pro, opts) in jobs:
+        if rel not in cache:
+            cache[rel] = strip_comments(open(os.path.join(repo, rel)).read())
+        try:
+            term = rsexpr.translate_fn(cache[rel], hdr, {}, funcs, subst, structs={"Self": ("SM.State.mk", ["exterior", "interiors"])}, opts=opts)
+        except rsexpr.TranslateError as e:
+            die("%s (%s): %s" % (name, rel, e))
+        out.append("/-- `%s` — %s -/" % (name, rel))
+        out.append("def %s %s : %s :=\n%s%s\n" % (name, params, ret, pro, term))
+    out += ["end Geo.Gen", ""]
+    write(os.path.join(outdir, "PolygonSMGen.lean"), "\n".join(out))
+    return len(jobs)
+
+# ---------------------------------------------------------------------------------------------
+# geo-types/src/private_utils.rs: the point–segment distance, with `hypot` as a parameter (sqrt-free tie, C07)
+
+PU = "geo-types/src/private_utils.rs"
+LNRS = "geo-types/src/geometry/line.rs"
+
+def dist_jobs():
+    R = {"ret_type": "Rat"}
+    return [
+        # (file, header, Lean name, params, ret, funcs, subst, opts)
+        (LNRS, r"pub fn delta\(&self\) -> Coord<T> \{", "lineDelta", "(s e : Pt)", "Pt", {}, [("self.start", "s"), ("self.end", "e")], {"ret_type": "Pt"}),
+        (LNRS, r"pub fn dx\(&self\) -> T \{", "lineDx", "(s e : Pt)", "Rat", {}, [("self", "s e")], dict(R, accessors={"delta": "(lineDelta {})"})),
+        (LNRS, r"pub fn dy\(&self\) -> T \{", "lineDy", "(s e : Pt)", "Rat", {}, [("self", "s e")], dict(R, accessors={"delta": "(lineDelta {})"})),
+        # `f64::hypot` is the parameter `hyp` (no square root over the rationals; the tie theorem assumes only that its
+        # square is x² + y² at the argument pairs the code evaluates)
+        (PU, r"pub fn line_euclidean_length<T>\(line: Line<T>\) -> T\s+where\s+T: CoordFloat,\s*\{", "lineEuclideanLength",
+         "(hyp : Rat → Rat → Rat) (line : Pt × Pt)", "Rat", {".hypot": "(hyp {0} {1})"}, [],
+         dict(R, accessors={"dx": "(lineDx {0}.1 {0}.2)", "dy": "(lineDy {0}.1 {0}.2)"})),
+        (PU, r"pub fn line_segment_distance<T, C>\(point: C, start: C, end: C\) -> T\s+where\s+T: CoordFloat,\s+C: Into<Coord<T>>,\s*\{",
+         "lineSegmentDistance", "(hyp : Rat → Rat → Rat) (point start end_ : Pt)", "Rat",
+         {".hypot": "(hyp {0} {1})", "line_euclidean_length": "(lineEuclideanLength hyp {0})", "Line::new": "({0}, {1})"}, [],
+         # `.into()` of a Coord into a Coord: the identity; `abs` = rabs
+         dict(R, accessors={"into": "{}", "abs": "(Geo.rabs {})"})),
+        (PU, r"pub fn point_line_euclidean_distance<C, T>\(p: C, l: Line<T>\) -> T\s+where\s+T: CoordFloat,\s+C: Into<Coord<T>>,\s*\{",
+         "pointLineEuclideanDistance", "(hyp : Rat → Rat → Rat) (p : Pt) (l : Pt × Pt)", "Rat",
+         {"line_segment_distance": "(lineSegmentDistance hyp {0} {1} {2})"}, [("l.start", "l.1"), ("l.end", "l.2")],
+         dict(R, accessors={"into": "{}"})),
+    ]
+
+def dist_functions(repo, outdir):
+    """Gen/DistGen.lean: `line_segment_distance`, `point_line_euclidean_distance`, `line_euclidean_length`, `Line::{delta,dx,dy}`."""
+    import rsexpr
+    out = ["/- generated by translator/rs2lean.py (rsexpr, statement fragment) from %s and %s; do not edit -/" % (PU, LNRS),
+           "import GeoModel.Geom", "import GeoModel.TRANPrelude", "",
+           "namespace Geo.Gen", "open Geo", "set_option linter.unusedVariables false", ""]
+    cache = {}
+    jobs = dist_jobs()
+    for (rel, hdr, name, params, ret, funcs, subst, opts) in jobs:
+        if rel not in cache:
+            cache[rel] = strip_comments(open(os.path.join(repo, rel)).read())
+        try:
+            term = rsexpr.translate_fn(cache[rel], hdr, NUM_PATHS, funcs, subst, opts=opts)
+        except rsexpr.TranslateError as e:
+            die("%s (%s): %s" % (name, rel, e))
+        out.append("/-- `%s` — %s -/" % (name, rel))
+        out.append("def %s %s : %s :=\n%s\n" % (name, params, ret, term))
+    out += ["end Geo.Gen", ""]
+    write(os.path.join(outdir, "DistGen.lean"), "\n".join(out))
+    return len(jobs)
+
 ENDPT = {"p.start": "p1", "p.end": "p2", "q.start": "q1", "q.end": "q2"}
 
 def collinear_table(repo, outdir):
@@ -366,7 +760,12 @@ def main():
     na = affine_functions(repo, outdir)
     nr = rect_functions(repo, outdir)
     ni = interp_functions(repo, outdir)
-    print("rs2lean: wrote Masks.lean (%d predicates), Enums.lean (%d op rules), CollinearTable.lean (%d rows), Kernel.lean (%d functions), AffineGen.lean (%d functions), RectGen.lean (%d functions), InterpGen.lean (%d functions)" % (len(fns), len(pairs), rows, nk, na, nr, ni))
+    nc = coordpos_functions(repo, outdir)
+    nd = dims_functions(repo, outdir)
+    nm = misc_functions(repo, outdir)
+    npg = polysm_functions(repo, outdir)
+    ndi = dist_functions(repo, outdir)
+    print("rs2lean: wrote Masks.lean (%d predicates), Enums.lean (%d op rules), CollinearTable.lean (%d rows), Kernel.lean (%d functions), AffineGen.lean (%d functions), RectGen.lean (%d functions), InterpGen.lean (%d functions), CoordPosGen.lean (%d functions), DimsGen.lean (%d functions), AreaGen.lean (%d functions), PolygonSMGen.lean (%d functions), DistGen.lean (%d functions)" % (len(fns), len(pairs), rows, nk, na, nr, ni, nc, nd, nm, npg, ndi))
 
 if __name__ == "__main__":
     main()
